@@ -28,7 +28,7 @@ CLAIMED["C11"] = dict(
     technique="exhaustive insertion of lexical irregularities at every token gap, oracle = independent scanner vs parsed root span",
 )
 
-UNI = "the program universe U(n): type-directed size-exact enumeration over 12 menus (complete below the per-menu size bound) plus 8 recursion/effect/record schemas with every hole filler below the filler bound (120k programs quick; one size step more in thorough), together with a System-F / F-omega mini universe (explicit type abstraction and application, aliases, existential packages, a type operator; 9.4k programs quick, each with all single-site mutants)"
+UNI = "the program universe U(n): type-directed size-exact enumeration over 12 menus (complete below the per-menu size bound) plus 8 recursion/effect/record schemas with every hole filler below the filler bound (120k programs quick; one size step more in thorough), together with a System-F / F-omega mini universe (explicit type abstraction and application, aliases, existential packages, a type operator, value-level pure functions; 12.7k programs quick, each with all single-site mutants)"
 CLAIMED["C01"] = dict(
     category="exploration",
     text="Every program of " + UNI + " is printed, accepted by the real front end, linked and stepped one public Eval::step at a time under catch_unwind; any unwind other than the defined arithmetic trap (or a host I/O failure of the legacy stream operations) is a violation attributed to the program text. Also: every mutant the checker accepts (reference-checker catalogue, variance negatives, System-F mutants) must not go wrong; 18 programs with a term hole in each position; 516 data/codata declarations over a small name pool. Decides the property for all programs below the bound; says nothing above it.",
@@ -45,7 +45,7 @@ CLAIMED["C02"] = dict(
 )
 CLAIMED["C03"] = dict(
     category="exploration",
-    text="Positive side: every program of " + UNI + " is well typed by construction in the reference system and printed with maximal annotations, so check must accept it. Negative side: every single-site mutant that the harness's reference checker rejects must be rejected (core catalogue on a stride of the universe; all 109k System-F / F-omega mutants incl. escaping abstract types). Type-equivalence matrix: all ordered pairs of 383 small types (quantifiers, free vs bound variables, an alias, pairs, existentials, operator applications) are accepted as equal iff alpha-equivalent. Declarations: 516 data/codata declarations over a pool of 3 names are accepted iff the names are distinct. Kinding: all 7.4k type expressions with <= 4 nodes (application, arrows, products, forall / exists / type-level fn at three binder kinds) are accepted iff a reference F-omega kinding judgment kinds them.",
+    text="Positive side: every program of " + UNI + " is well typed by construction in the reference system and printed with maximal annotations, so check must accept it. Negative side: every single-site mutant that the harness's reference checker rejects must be rejected (core catalogue on a stride of the universe; all 150k System-F / F-omega mutants incl. escaping abstract types). Type-equivalence matrix: all ordered pairs of 383 small types (quantifiers, free vs bound variables, an alias, pairs, existentials, operator applications) are accepted as equal iff alpha-equivalent. Declarations: 516 data/codata declarations over a pool of 3 names are accepted iff the names are distinct. Kinding: all 7.4k type expressions with <= 4 nodes (application, arrows, products, forall / exists / type-level fn at three binder kinds) are accepted iff a reference F-omega kinding judgment kinds them.",
     design_ref="C03",
     note="Trusts the generator's typing discipline (type-directed construction) and the annotation policy; a rejected class is first treated as a generator bug.",
     technique="bounded-exhaustive enumeration of well-typed programs and of definite-error mutants, accept/reject oracle",
